@@ -45,14 +45,15 @@ BUDGET = {
 REQUIRED = dict(
     monitors=['contract:one-per-layer', 'contract:finite-positive', 'contract:within-controls',
               'contract:constant-when-controls-equal', 'contract:isothermal-constant', 'contract:guillot-closed-form',
-              'contract-fired', 'rejects-nonphysical', 'accepts-physical', 'controls-roundtrip'],
+              'contract-fired', 'rejects-nonphysical', 'accepts-physical', 'controls-roundtrip',
+              'clone:original-unchanged-by-writes-to-the-copy'],
     classes=['Isothermal', 'NPoint', 'Guillot2010', 'Rodgers2000', 'TemperatureArray', 'TemperatureFile',
              'npoint:valid', 'npoint:inverted', 'npoint:slope', 'npoint:all-equal', 'npoint:smoothed',
              'guillot:inside', 'guillot:outside-bounds', 'guillot:zero-kappa', 'guillot:negative-T',
              'guillot:alpha-outside', 'guillot:negative-kappa', 'guillot:reinit-judged', 'reinit:other-grid-same-n',
              'reinit:other-planet', 'reinit:planet-set', 'reinit:other-n', 'reinit:first-again', 'grid:integer-decades', 'array:index', 'array:pressure', 'array:all-equal',
              'rodgers:all-equal', 'nlayers:2', 'nlayers:100', 'grid:simple', 'grid:irregular', 'grid:narrow',
-             'via-forward-model', 'via-setter'])
+             'via-forward-model', 'via-setter', 'clone:deepcopy'])
 
 NLAYERS = list(range(2, 61)) + [100]
 
@@ -194,6 +195,36 @@ def roundtrip(ctx, obj, expect):
                   got=fp[k][2]() if k in fp else None, cls=type(obj).__name__)
 
 
+
+def maybe_clone(ctx, rng, obj, expect=None, p=0.35):
+    """Another route to the same profile: a ``copy.deepcopy`` of the live object (a reference model kept aside before
+    a scan).  The workload goes on with the COPY --
+    setters, re-initialisation -- and reads the original once more at the end: what is written to the copy must show
+    in the copy (its reads are judged from the copy's own declaration) and must not show in the original."""
+    if rng.random() >= p:
+        return obj, None
+    how = 'deepcopy'        # objects with fitting parameters do not pickle on the unchanged tree (closures): not a route
+    c = world.clone(obj, how)
+    ctx.observe('clone:' + how)
+    if expect is not None:
+        roundtrip(ctx, c, expect)
+    return c, obj
+
+
+def original_untouched(ctx, orig, first):
+    if orig is None:
+        return
+    again = access(ctx, orig)          # judged by the contracts from the original's own declaration
+    if type(orig).__name__ == 'Guillot2010':
+        # depends on the planet's gravity, and the workload writes to the (shared) planet: the closed-form contract
+        # above is the judgement; equality with the first read is not implied
+        return
+    same = (isinstance(again, Exception) and isinstance(first, Exception)) or \
+        (not isinstance(again, Exception) and not isinstance(first, Exception)
+         and np.shape(again) == np.shape(first) and bool(np.array_equal(np.asarray(again), np.asarray(first))))
+    ctx.check('clone:original-unchanged-by-writes-to-the-copy', same, cls=type(orig).__name__)
+
+
 def reinit_again(ctx, rng, obj, n, P, planet, same_n_only=False, rounds=None):
     """The SAME profile object is initialised again -- another pressure grid with the same layer count, another
     planet, the same Planet object after its mass/radius was set, another layer count -- and read again; the first
@@ -243,8 +274,10 @@ def wl_isothermal(ctx, rng):
         iso.initialize_profile(planet, n, P)
     else:
         iso.initialize_profile(nlayers=n)          # the documented minimal call
-    accepted(ctx, access(ctx, iso), 'isothermal', T=T)
+    first = access(ctx, iso)
+    accepted(ctx, first, 'isothermal', T=T)
     roundtrip(ctx, iso, {'T': T})
+    iso, orig = maybe_clone(ctx, rng, iso, {'T': T})
     T2 = float(10 ** rng.uniform(0, 4))
     iso.fitting_parameters()['T'][3](T2)
     L.redeclare(iso, T=T2)
@@ -259,6 +292,7 @@ def wl_isothermal(ctx, rng):
     except Exception as e:
         ctx.event('observed-only:isothermal-negative-T-raised-' + type(e).__name__)
     reinit_again(ctx, rng, iso, n, P, planet)
+    original_untouched(ctx, orig, first)
     ctx.sig('iso', n, T, T2)
 
 
@@ -331,9 +365,10 @@ def wl_npoint(ctx, rng):
         rt['T_point%d' % (i + 1)] = temps[i + 1]
         rt['P_point%d' % (i + 1)] = pp[i]
     roundtrip(ctx, np_, rt)
+    np_, orig = maybe_clone(ctx, rng, np_, rt)
     # change one node through the public setter: the contracts judge the new state
     fp = np_.fitting_parameters()
-    if rng.random() < 0.5:
+    if rng.random() < (0.5 if orig is None else 0.9):
         name = ['T_surface', 'T_top'][rng.integers(0, 2)] if k == 0 or rng.random() < 0.5 else 'T_point%d' % (rng.integers(0, k) + 1)
         v = float(10 ** rng.uniform(0, 4))
         fp[name][3](v)
@@ -349,6 +384,7 @@ def wl_npoint(ctx, rng):
         elif v2 == 'slope':
             judge_rejection(ctx, lambda: r2, 'npoint-slope-after-set', decl=np_._vmon_decl[1])
     reinit_again(ctx, rng, np_, n, P, planet)
+    original_untouched(ctx, orig, res)
     ctx.sig('npoint', n, k, window, gk, tuple(temps), tuple(pp))
     ctx.sample({'class': 'NPoint', 'nlayers': n, 'grid': gk, 'controls': temps, 'pressure_points': pp, 'window': window,
                 'T_minmax': [float(np.min(res)), float(np.max(res))]})
@@ -416,6 +452,7 @@ def wl_guillot(ctx, rng):
         return
     roundtrip(ctx, g, {'T_irr': p['T_irr'], 'kappa_irr': p['kappa_irr'], 'kappa_v1': p['kappa_v1'],
                        'kappa_v2': p['kappa_v2'], 'alpha': p['alpha'], 'T_int_guillot': p['T_int']})
+    g, orig = maybe_clone(ctx, rng, g)
     fp = g.fitting_parameters()
     if mode == 'setter-invalid':
         # a sampler writes a non-physical value through the fitting parameter: profile must reject, then recover
@@ -448,6 +485,7 @@ def wl_guillot(ctx, rng):
         again = reinit_again(ctx, rng, g, n, P, planet)
         if mode == 'inside' and not isinstance(again, Exception):
             ctx.observe('guillot:reinit-judged')
+    original_untouched(ctx, orig, res)
     ctx.sig('guillot', mode, n, gk, tuple(sorted(p.items())), round(pm, 6), round(pr, 6))
     ctx.sample({'class': 'Guillot2010', 'mode': mode, 'nlayers': n, 'params': p, 'planet': [pm, pr],
                 'T_minmax': [float(np.nanmin(res)), float(np.nanmax(res))]})
@@ -471,6 +509,7 @@ def wl_rodgers(ctx, rng):
     if not accepted(ctx, res, 'rodgers', h=h, n=n):
         return
     roundtrip(ctx, r, dict([('correlation_length', h)] + [('T_%d' % (i + 1), temps[i]) for i in range(min(n, 5))]))
+    r, orig = maybe_clone(ctx, rng, r)
     if rng.random() < 0.5:
         i = int(rng.integers(0, n))
         v = float(10 ** rng.uniform(0, 4))
@@ -479,6 +518,7 @@ def wl_rodgers(ctx, rng):
         ctx.observe('via-setter')
         accepted(ctx, access(ctx, r), 'rodgers-after-set')
     reinit_again(ctx, rng, r, n, P, planet, same_n_only=True)
+    original_untouched(ctx, orig, res)
     ctx.sig('rodgers', n, gk, h, tuple(temps[:6]))
     ctx.sample({'class': 'Rodgers2000', 'nlayers': n, 'h': h, 'controls_minmax': [min(temps), max(temps)],
                 'T_minmax': [float(np.min(res)), float(np.max(res))]})
